@@ -8,6 +8,7 @@ import (
 	"os/exec"
 	"path/filepath"
 	"runtime"
+	"runtime/pprof"
 	"sort"
 	"strconv"
 	"strings"
@@ -49,6 +50,7 @@ func cmdCheck(args []string) int {
 	logq := fs.Bool("log", false, "log SMT queries")
 	known := fs.String("known", "/verif/known_findings.json", "known findings file")
 	noNative := fs.Bool("no-native", false, "skip native replay/self-test")
+	cpuprof := fs.String("cpuprofile", "", "write a CPU profile")
 	fs.Parse(args)
 	if v := os.Getenv("SYMGO_WORKERS"); v != "" {
 		if n, err := strconv.Atoi(v); err == nil && n > 0 {
@@ -57,6 +59,12 @@ func cmdCheck(args []string) int {
 	}
 	if v := os.Getenv("VERIF_TIER"); v != "" && *tier == "" {
 		*tier = v
+	}
+	if *cpuprof != "" {
+		if f, err := os.Create(*cpuprof); err == nil {
+			pprof.StartCPUProfile(f)
+			defer pprof.StopCPUProfile()
+		}
 	}
 	t0 := time.Now()
 	seed := 0
@@ -89,7 +97,7 @@ func cmdCheck(args []string) int {
 	loadT := time.Since(t0)
 	prog.cfg = runCfg{
 		BranchTimeoutMs: 5000, AssertTimeoutMs: 20000, MaxConcretize: 64, MaxSteps: 5000000, MaxAlloc: 1 << 16,
-		MaxSymIndex: 512, SkipInit: map[string]bool{}, NoIntrinsic: map[string]bool{}, Thorough: thorough, NoSpeculate: cc.NoSpeculate,
+		MaxSymIndex: 512, SkipInit: map[string]bool{}, NoIntrinsic: map[string]bool{}, Thorough: thorough, NoSpeculate: cc.NoSpeculate, AbstractCRC: cc.AbstractCRC,
 	}
 	if cc.AssertTimeoutS > 0 {
 		prog.cfg.AssertTimeoutMs = cc.AssertTimeoutS * 1000
